@@ -47,7 +47,11 @@ class C06(vlib.PropertyCheck):
                    'correspondence check with an allocator oracle'),
         text=('Proved in Rocq for all finite programs over the modelled object API (create, every allocating or releasing method '
               'of str, ustr, mbuff, objpair, tok, url, regexp, the nine list/vector/map classes, iterators, to_array blocks; dup, '
-              'done, init, del; remove / remove_at / map remove; get_keys / get_values / get_pairs; substr / subbuff): the ledger '
+              'done, init, del; remove / remove_at / map remove; get_keys / get_values / get_pairs; substr / subbuff; the '
+              'constructors of str, ustr, mbuff and tok from a FILE* or a descriptor on a regular file at any offset, an empty file, '
+              'a pipe, a closed descriptor and no stream at all; every property setter incl. spif_tok_set_tokens and the '
+              'quote / dquote / escape / len / size setters; edits of the token list and of text members through the pointers the '
+              'getters hand out): the ledger '
               'of live allocations always equals the sum of the footprints of the objects the program holds (C06_ledger_invariant); '
               'a program that ends holding nothing leaves the heap as it found it (C06_balance); what del frees and what dup '
               'allocates is exactly the footprint (C06_release_is_footprint, C06_dup_allocates_footprint); done leaves the class\'s '
@@ -57,7 +61,10 @@ class C06(vlib.PropertyCheck):
               '(C06_map_takes_copies), also in the pair form SPIF_MAP_SET(map, pair, NULL) where the pair stays the caller\'s '
               '(C06_map_pair_form_takes_copies) and when the map is handed its own stored value or entry '
               '(C06_map_own_objects_back); the queries count / get / contains / find / index / map get / has_key / has_value '
-              'change nothing (C06_query_changes_nothing); the only faults of the model are the two program errors - use of a handle that is not '
+              'change nothing (C06_query_changes_nothing); a constructor from a stream either hands back an object, and then '
+              'exactly its footprint was allocated, or returns NULL with nothing left allocated and nothing else changed - in '
+              'particular on a non-empty seekable file whose stream is at its end (C06_stream_constructor, '
+              'C06_stream_mbuff_at_eof); the only faults of the model are the two program errors - use of a handle that is not '
               'held, wrong class (C06_no_library_fault). Decided by the correspondence check only: that the C code allocates and '
               'frees where the model says (after every operation the live-block count of the wrap layer equals the model\'s ledger; '
               'after the final deletions it is back at its start; no free of a non-live pointer; the same programs under ASan '
@@ -176,6 +183,8 @@ class C06(vlib.PropertyCheck):
         # tokenizer re-evaluation, setter overwrite
         cases.append('own %s ; tok 6120622063 ; eval 0 ; eval 0 ; str 20 ; setsep 0 1 ; eval 0 ; str 78 ; setsrc 0 2 ; eval 0 ; dup 0 ; delall' % oracle)
         cases.append('own %s ; str 6b ; str 76 ; pair 0 1 ; str 6b32 ; setk 2 3 ; str 7632 ; setv 2 4 ; setv 2 _ ; delall' % oracle)
+        cases += self.stream_cases(oracle, tier)
+        cases += self.member_cases(oracle)
         # generated programs
         nprog = 700 if tier == 'quick' else 30000
         specs = []
@@ -189,6 +198,65 @@ class C06(vlib.PropertyCheck):
         cases += ownlib.grow(rng, table, specs, 32)
         self._cases = cases
         return cases
+
+    def stream_cases(self, oracle, tier):
+        """the constructors from FILE* / descriptor of str, ustr, mbuff and tok: every kind of stream (regular file
+        at offset 0, in the middle, at its end; empty file; pipe with and without data; closed descriptor; no
+        stream), failing forms before and after succeeding ones, the ledger read after every call and after the
+        final deletions"""
+        out = []
+        big = bytes((i * 7) % 250 + 1 for i in range(5000))          # longer than the 4096-byte read increment
+        contents = [b'abc', b'ab\ncd', b'\n', b'a b  c\nz w', b'x' * 4095 + b'\n' + b'y' * 10, big]
+        if tier != 'quick':
+            contents += [b'q' * 4096, b'q' * 4097, b'q' * 8192, b'ab\n' * 3000]
+        for cls in ('str', 'ustr', 'mbuff', 'tok'):
+            for via in ('fp', 'fd'):
+                for data in contents:
+                    n, h = len(data), hx(data)
+                    fail = ['fnew %s %s reg %s %d' % (cls, via, h, n), 'fnew %s %s reg - 0' % (cls, via), 'fnew %s %s bad - 0' % (cls, via),
+                            'fnew %s %s bad %s 0' % (cls, via, h)]
+                    good = ['fnew %s %s reg %s 0' % (cls, via, h), 'fnew %s %s reg %s %d' % (cls, via, h, n // 2),
+                            'fnew %s %s reg %s %d' % (cls, via, h, n - 1), 'fnew %s %s pipe %s 0' % (cls, via, h),
+                            'fnew %s %s pipe - 0' % (cls, via)]
+                    if via == 'fd':
+                        good.append('fnew %s fd closed - 0' % cls)
+                    # (for str / ustr / tok the "failing" regular-file forms yield an empty string, not NULL; the
+                    # model says which)
+                    out.append('own %s ; %s ; %s ; dumpall ; delall' % (oracle, ' ; '.join(fail), ' ; '.join(good)))
+                    out.append('own %s ; %s ; %s ; %s ; dumpall ; delall' % (oracle, ' ; '.join(good), ' ; '.join(fail), good[0]))
+                    # one call per program: the ledger after a single failing call and after deleting what a
+                    # single succeeding call made
+                    if data in (contents[0], contents[1]):
+                        for op in fail + good:
+                            out.append('own %s ; %s ; delall ; %s ; %s ; delall' % (oracle, op, op, op))
+        # the object made from a stream goes through the protocol like any other
+        out.append('own %s ; fnew tok fp reg %s 0 ; eval 0 ; fnew tok fd reg %s 2 ; eval 1 ; dup 0 ; done 1 ; eval 1 ; fnew str fp reg 2c 0 ; '
+                   'setsep 0 3 ; eval 0 ; dumpall ; delall' % (oracle, hx(b'a,b c\nd'), hx(b'a,b c\nd')))
+        out.append('own %s ; fnew mbuff fd reg 6162636465 2 ; append 0 66 ; dup 0 ; substr 0 1 2 ; setlen 0 1 ; dup 0 ; done 0 ; '
+                   'append 0 67 ; fnew mbuff fp reg 6162636465 5 ; fnew mbuff fp reg 6162636465 4 ; dumpall ; delall' % oracle)
+        return out
+
+    def member_cases(self, oracle):
+        """setters and getters of every class between construction and deletion: the member a setter replaces is
+        released, a list installed with set_tokens is the tokenizer's, an element taken out of the list handed
+        out by get_tokens is the caller's, a member changed in place keeps its owner"""
+        out = []
+        for c in 'ald':
+            out.append('own %s ; tok 6120622063 ; eval 0 ; cont L %s ; str 7a ; lappend 1 2 ; settoks 0 1 ; dump 0 ; cont L %s ; settoks 0 3 ; '
+                       'dump 0 ; settoks 0 _ ; eval 0 ; tlremove_at 0 1 ; tlremove_at 0 7 ; tlremove_at 0 -1 ; tlremove_at 0 0 ; tlremove_at 0 0 ; '
+                       'str 79 ; tlappend 0 9 ; dup 0 ; cont L %s ; str 78 ; linsert_at 11 12 2 ; settoks 10 11 ; tlremove_at 10 0 ; tlremove_at 10 1 ; '
+                       'dup 10 ; done 10 ; dumpall ; delall' % (oracle, c, c, c))
+        out.append('own %s ; tok %s ; setq 0 q 124 ; setq 0 d 0 ; setq 0 e 35 ; eval 0 ; dup 0 ; setq 0 q 39 ; eval 0 ; done 0 ; eval 0 ; '
+                   'str 61 ; setsrc 0 2 ; eval 0 ; dumpall ; delall' % (oracle, hx(b"x |y z| 'w#  v'")))
+        out.append('own %s ; tok 6120 ; mappend 0 0 62 ; str N ; setsep 0 1 ; mappend 0 1 2c ; mappend 0 1 - ; eval 0 ; str N ; setsrc 0 2 ; '
+                   'mappend 0 0 - ; mappend 0 0 712c72 ; eval 0 ; dup 0 ; dumpall ; delall' % oracle)
+        out.append('own %s ; str N ; mbuff N ; pair 0 1 ; mappend 2 0 6b ; mappend 2 1 7600 ; dup 2 ; ustr - ; setk 2 4 ; mappend 2 0 75 ; '
+                   'cont M a ; msetp 5 2 ; mappend 2 0 76 ; dumpall ; delall' % oracle)
+        out.append('own %s ; url %s ; str N ; urlset 0 3 1 ; mappend 0 3 6868 ; mappend 0 0 7a ; unparse 0 ; dup 0 ; mappend 2 6 7a ; '
+                   'done 0 ; str N ; urlset 0 5 3 ; mappend 0 5 2f70 ; unparse 0 ; dumpall ; delall' % (oracle, hx(b'xq://h/p?q')))
+        out.append('own %s ; mbuff 6162636465 ; setlen 0 5 ; setlen 0 3 ; dup 0 ; append 0 7a ; setlen 0 0 ; dup 0 ; append 0 79 ; setlen 0 -1 ; '
+                   'str 6162 ; setlen 3 -1 ; ustr N ; setlen 4 -1 ; mbuff N ; setlen 5 0 ; setlen 5 -1 ; dup 5 ; dumpall ; delall' % oracle)
+        return out
 
     def is_fault(self, out):
         return out is not None and 'FAULT' in out
